@@ -182,3 +182,23 @@ Proof.
   destruct (b0 =? 255) eqn:C5; [destruct (m >=? 9) eqn:L; intros E; inversion E; subst; lia|].
   discriminate.
 Qed.
+
+(* --- unambiguous framing: corollaries of the prefix theorem ------------------------------- *)
+Lemma varint_enc_injective_l :
+  forall a b, 0 <= a < 2 ^ 64 -> 0 <= b < 2 ^ 64 -> enc a = enc b -> a = b.
+Proof.
+  intros a b Ha Hb E.
+  pose proof (varint_roundtrip_l a Ha) as Ra. pose proof (varint_roundtrip_l b Hb) as Rb.
+  rewrite E in Ra. rewrite Ra in Rb. inversion Rb. reflexivity.
+Qed.
+
+Lemma varint_prefix_free_l :
+  forall a b r1 r2, 0 <= a < 2 ^ 64 -> 0 <= b < 2 ^ 64 ->
+    enc a ++ r1 = enc b ++ r2 -> a = b /\ r1 = r2.
+Proof.
+  intros a b r1 r2 Ha Hb E.
+  pose proof (varint_decode_prefix_l a r1 Ha) as Ra.
+  pose proof (varint_decode_prefix_l b r2 Hb) as Rb.
+  rewrite E in Ra. rewrite Ra in Rb. injection Rb as Hab _. subst b.
+  split; [reflexivity|]. eapply app_inv_head. exact E.
+Qed.
